@@ -59,7 +59,7 @@ def main():
         if rc != 0:
             print('PATCH DOES NOT APPLY', out)
             return 2
-        rc, out = sh([PY, 'setup.py', '-q', 'build_ext', '--inplace'], cwd=wt)
+        rc, out = sh([PY, 'setup.py', '-q', 'build_ext', '--inplace', '--force'], cwd=wt)
         meta['builds'] = (rc == 0)
         if rc != 0:
             print('BUILD FAILED', out[-1500:])
@@ -70,12 +70,28 @@ def main():
         meta['demo_without_change_exit'] = rc_without
         print('demo with change: exit %d | without: exit %d' % (rc_with, rc_without))
         if not notests:
-            env = dict(os.environ, PYTHONPATH=os.path.join(wt, 'src'))
-            rc, out = sh('timeout 2400 %s -m pytest -q -p no:cacheprovider -n 8 src/c/test_c.py testing/cffi0 testing/cffi1 2>&1 | tail -5' % PY,
-                         cwd=wt, env=env)
-            tail = out.strip().splitlines()[-1] if out.strip() else ''
-            meta['existing_tests_with_change'] = tail
-            print('existing tests with change:', tail)
+            # the existing suite, serial within each directory (xdist workers race on the shared
+            # __pycache__ build directories), two directories side by side with private TMPDIRs
+            import threading
+            res = {}
+
+            def part(name, paths):
+                td = '/tmp/seedtests_%s_%s_%s' % (pid, k, name)
+                shutil.rmtree(td, ignore_errors=True)
+                os.makedirs(td)
+                env = dict(os.environ, PYTHONPATH=os.path.join(wt, 'src'), TMPDIR=td)
+                rc, out = sh('timeout 3000 %s -m pytest -q -p no:cacheprovider %s 2>&1 | tail -3' % (PY, paths),
+                             cwd=wt, env=env, timeout=3100)
+                res[name] = out.strip().splitlines()[-1] if out.strip() else ''
+                shutil.rmtree(td, ignore_errors=True)
+            ts = [threading.Thread(target=part, args=('a', 'src/c/test_c.py testing/cffi1')),
+                  threading.Thread(target=part, args=('b', 'testing/cffi0'))]
+            for t in ts:
+                t.start()
+            for t in ts:
+                t.join()
+            meta['existing_tests_with_change'] = res
+            print('existing tests with change:', res)
         env = dict(os.environ, VERIF_REPO=wt)
         env.pop('VERIF_REEXEC', None)
         t0 = time.time()
